@@ -570,7 +570,7 @@ func (s *Session) wellTyped(st *State, t types.Type, v Term) Term {
 	switch t.Underlying().(type) {
 	case *types.Slice:
 		return And(Le(TZero, SLen(v)), Le(SLen(v), SCap(v)), Le(TZero, SOff(v)), Le(TZero, SArr(v)), Le(SArr(v), s.H(st, "$brk", SInt)),
-			Implies(Eq(SArr(v), TZero), Eq(SCap(v), TZero)), Le(SCap(v), BigLit("4611686018427387904")))
+			Implies(Eq(SArr(v), TZero), Eq(SCap(v), TZero)), Le(SCap(v), BigLit("1152921504606846976")))
 	case *types.Pointer, *types.Map, *types.Chan:
 		return Le(v, s.H(st, "$brk", SInt)) // sub-object and escaped-local references are negative
 	case *types.Signature:
